@@ -793,8 +793,8 @@ KEY_POOLS = {
             ('i', 100000000000000000000), ('f', '-3')],
     'special': [('f', 'NaN'), ('f', 'INF'), ('f', '-INF'), ('f', '-0.0')],
     'str': [('s', 'a'), ('s', 'b'), ('s', ''), ('s', 'ab'), ('u', 'a'), ('u', 'b'), ('u', ''), ('s', 'é'),
-            ('s', '1'), ('s', 'true'), ('u', 'http://x/y'), ('a', 'a'), ('a', '1'), ('a', 'true'),
-            ('a', '2000-01-01'), ('a', 'b')],   # not ('a', ''): finding F15u (hash('') == hash(0))
+            ('s', '1'), ('s', 'true'), ('u', 'http://x/y'), ('a', 'a'), ('a', '1'), ('a', 'true'), ('a', ''),
+            ('a', '2000-01-01'), ('a', 'b')],
     'bool': [('b', True), ('b', False)],
     'date': [('t', (2000, 1, 1, None)), ('t', (2000, 1, 1, 0)), ('t', (2000, 1, 1, 60)),
              ('t', (2000, 1, 2, 840)), ('t', (2000, 1, 1, -600)), ('t', (1999, 12, 31, None)),
@@ -1177,9 +1177,9 @@ def twist(rng, k, flavour):
                 return rng.choice([('i', int(x)), ('d', f'{int(x)}.00')])
             return ('d', p) if 'e' not in p.lower() else k
         if kind == 's':
-            return rng.choice([('u', p), ('a', p)] if p else [('u', p)])
+            return rng.choice([('u', p), ('a', p)])
         if kind == 'u':
-            return rng.choice([('s', p), ('a', p)] if p else [('s', p)])
+            return rng.choice([('s', p), ('a', p)])
         if kind == 'a':
             return rng.choice([('s', p), ('u', p)])
         if kind == 'b':
@@ -1285,6 +1285,10 @@ CORPUS = [
      ('call2', 17, 20, 0, 'lookup'), ('call', 4, 0, 'let', '[$v0, $v1]'), ('call', 3, 0, 'bang', 'map{1: $v0, 2: $v1}')],
     # F15w: a non-map operand of map:merge
     [('seq', [('i', 7)]), ('mmerge', 0, 'combine'), ('mctor', [(('i', 1), 0)]), ('seq', [2, 2, 0]), ('mmerge', 3, 'reject')],
+    # F15u (fixed): the empty untypedAtomic shares the hash of 0 / 0.0 / false
+    [('seq', [('i', 1)]), ('mctor', [(('i', 0), 0), (('f', '-0.0'), 0)][:1]), ('mget', 1, ('a', '')), ('mentry', ('a', ''), 0),
+     ('mget', 3, ('i', 0)), ('mget', 3, ('s', '')), ('mcontains', 3, ('d', '0')), ('mput', 3, ('i', 0), 0), ('mkeys', 7),
+     ('seq', [3, 1]), ('mmerge', 9, 'combine'), ('mget', 10, ('u', ''))],
     # xs:untypedAtomic keys: string class; the constructor stores them as xs:string, map:entry/put keep them
     [('seq', [('i', 1)]), ('mctor', [(('a', '1'), 0), (('i', 1), 0)]), ('mkeys', 1), ('mentry', ('a', 'a'), 0), ('mkeys', 3),
      ('mget', 3, ('s', 'a')), ('mcontains', 3, ('u', 'a')), ('mput', 3, ('u', 'a'), 0), ('mkeys', 7), ('mget', 1, ('a', '1')),
